@@ -60,6 +60,11 @@ CHECKS = {
                      "returned object, moments of order <= 2 of the image (integrator queried before and after), |det| area scaling and restoration by the inverse; composite and "
                      "unbounded shapes: images, kind, and T(p) in T(S) <=> p in S with the query point free.",
                 technique="symbolic execution of the real code (SYMX, raw expression DAG) + z3 polynomial identities / QF_LRA"),
+    "C15": dict(level="model_checking", design="4/C15",
+                text="JordanCurve.split with symbolic split parameters on catalogue polygons (every ordering / repetition / near-0-1 case is a path cell): z3 decides the new "
+                     "vertex list is the original with the junctions P_i + n(P_{i+1}-P_i) inserted in order, no piece with library-equal end points, signed area unchanged, "
+                     "identity sharing; with concrete parameters and a symbolic translation: clean() restores the segmentation, is idempotent, and the split curve == the original.",
+                technique="symbolic execution of the real code (SYMX) + z3 per path cell"),
 }
 NA = {}
 
